@@ -138,3 +138,5 @@ func vpOneRecord(i, extra int) []byte {
 }
 
 func vpKeyOf(rec any) []byte { return vpKey(rec.(*BED)) }
+
+func vpBlankLinesOK() bool { return true }
